@@ -51,10 +51,32 @@ def dns(d) -> int:
 
 
 def norm(v):
-    """Received values are compared structurally (tuple/list both accepted)."""
+    """Received values are compared structurally (tuple/list both accepted) and by type for bool vs int
+    (idempotent: norm(norm(v)) == norm(v))."""
+    if isinstance(v, bool):
+        return "<True>" if v else "<False>"
     if isinstance(v, (list, tuple)):
         return tuple(norm(x) for x in v)
     return v
+
+
+# value codes of the resolve-value alphabet (falsy values; no code = a unique truthy token)
+def value(default_tok, code=None):
+    if code is None:
+        return default_tok
+    return {"z": 0, "F": False, "s": "", "l": [], "N": None}[code]
+
+
+def hook_cfg(hooks):
+    """-> (names registered before scheduling, names attached later, attach time, how, label)"""
+    if hooks == "none":
+        return (), (), None, None, "none"
+    if isinstance(hooks, str):
+        return ("count", "event"), (), None, None, hooks
+    kind, t, how = hooks
+    if kind == "late":
+        return (), ("count", "event"), t, how, f"late-{how}"
+    return ("count",), ("event",), t, how, f"mixed-{how}"
 
 
 def thaw(x):
@@ -73,13 +95,18 @@ def thaw(x):
 #   ('resolve', i)               futures[i].resolve(token)   (no yield)
 # a process = (start_ns, style, hooks, steps, retform)
 #   style  'entity' (Entity.handle_event returns the generator) | 'once' (Event.once -> CallbackEntity)
-#   hooks  'none' | 'ctor' (Event(on_complete=[...])) | 'add' (add_completion_hook)
+#   hooks  'none' | 'ctor' (Event(on_complete=[...])) | 'add' (add_completion_hook before scheduling)
+#          ('late', t_ns, how)  no hook at start; at t_ns another entity attaches both hooks to the starting
+#                               event (how = 'add': add_completion_hook | 'append': on_complete.append)
+#          ('mixed', t_ns, how) count hook present at start, event hook attached at t_ns by another entity
 #   retform 'none' | 'one' (bare Event at now) | 'two' ([now, now+1ns]) | 'empty' ([])
 # emit forms: 'one' bare Event at now | 'two' [now, now] | 'later' [now+1ns] | 'none' (None)
 #             ('res', i, dt) [resolver event for future i at now+dt]
 # program = (procs, res, pre, order, mode)
-#   res    ((t_ns, fut), ...) resolver actions, time non-decreasing; order = creation order on ties
-#   pre    futures resolved before run()
+#   res    ((t_ns, fut[, code]), ...) resolver actions, time non-decreasing; order = creation order on ties;
+#          code selects a falsy value (z: 0, F: False, s: '', l: [], N: None), default a unique token
+#   pre    futures resolved before run(): fut or (fut, code)
+#   ('resolve', i[, code]) likewise
 #   order  'P' process start events created first | 'R' resolver events created first
 #   mode   'auto' (no end_time: instrumented loop) | 'end' (explicit end_time: fast loop) | 'ctl' (control attached)
 
@@ -165,14 +192,41 @@ class Resolver(Entity):
         c = self.ctx
         now = self.now.nanoseconds
         c.emit(("deliver", md["eid"], now))
-        c.emit(("resolve", md["who"], md["fut"], now, md["tok"]))
+        c.emit(("resolve", md["who"], md["fut"], now, norm(md["tok"])))
         c.futs[md["fut"]].resolve(md["tok"])
+        return None
+
+
+class Hooker(Entity):
+    """Another entity that attaches completion hooks to a process's starting event while it is in flight."""
+
+    def __init__(self, name, ctx):
+        super().__init__(name)
+        self.ctx = ctx
+
+    def handle_event(self, event):
+        md = event.context["metadata"]
+        c = self.ctx
+        p = md["p"]
+        now = self.now.nanoseconds
+        c.emit(("deliver", md["eid"], now))
+        _pre, late, _t, how, _lbl = hook_cfg(c.prog[0][p][2])
+        hooks = dict(zip(("count", "event"), c.hooks_for(p)))
+        ev = c.start_events[p]
+        for name in late:
+            c.emit(("attach", p, name, now))
+            if how == "add":
+                ev.add_completion_hook(hooks[name])
+            else:
+                ev.on_complete.append(hooks[name])
         return None
 
 
 class RealCtx:
     def __init__(self, prog):
         self.prog = prog
+        self.start_events = {}
+        self.hooker = Hooker("H", self)
         self.log = []
         self.futs = [SimFuture() for _ in range(NF)]
         self.prebuilt = {}
@@ -278,8 +332,8 @@ class RealCtx:
             elif k == "sub":
                 yield from self.run_steps(p, st[1], pth, False)
             elif k == "resolve":
-                tok = ("p", p, pth)
-                self.emit(("resolve", ("p", p), st[1], self.now(), tok))
+                tok = value(("p", p, pth), st[2] if len(st) > 2 else None)
+                self.emit(("resolve", ("p", p), st[1], self.now(), norm(tok)))
                 self.futs[st[1]].resolve(tok)
             else:
                 raise AssertionError(st)
@@ -294,27 +348,30 @@ def run_real(prog, watchdog=True):
     """Execute one program on the real library; returns the log (list of tuples)."""
     procs, res, pre, order, mode = prog
     c = RealCtx(prog)
-    ents = c.pents + [c.resolver, c.sink]
+    ents = c.pents + [c.resolver, c.sink, c.hooker]
     kw = {}
     if mode == "end":
         kw["end_time"] = Instant(END_NS)
     sim = Simulation(entities=ents, **kw)
     for p, pr in enumerate(procs):
         c.prebuild(p, pr[3], ())
-    for f in pre:
-        c.log.append(("resolve", "pre", f, -1, ("pre", f)))
-        c.futs[f].resolve(("pre", f))
+    for fe in pre:
+        f, code = fe if isinstance(fe, tuple) else (fe, None)
+        tok = value(("pre", f), code)
+        c.log.append(("resolve", "pre", f, -1, norm(tok)))
+        c.futs[f].resolve(tok)
 
     def mk_starts():
         out = []
         for p, (st_ns, style, hooks, _steps, _ret) in enumerate(procs):
-            hk = c.hooks_for(p) if hooks != "none" else []
+            pre_names, _late, _t, _how, _lbl = hook_cfg(hooks)
+            hk = c.hooks_for(p)[:len(pre_names)]
             if style == "once":
                 ev = Event.once(Instant(st_ns), "start", (lambda e, p=p: c.start_proc(p)),
                                 context={"metadata": {"p": p}})
                 for h in hk:
                     ev.add_completion_hook(h)
-            elif hooks == "ctor":
+            elif hooks == "ctor" or (hk and not isinstance(hooks, str)):
                 ev = Event(time=Instant(st_ns), event_type="start", target=c.pents[p], on_complete=hk,
                            context={"metadata": {"p": p}})
             else:
@@ -322,18 +379,29 @@ def run_real(prog, watchdog=True):
                            context={"metadata": {"p": p}})
                 for h in hk:
                     ev.add_completion_hook(h)
+            c.start_events[p] = ev
             out.append(ev)
         return out
 
     def mk_res():
-        return [c.mk(("ra", k), t, c.resolver, {"who": ("r", k), "fut": f, "tok": ("r", k)})
-                for k, (t, f) in enumerate(res)]
+        return [c.mk(("ra", k), a[0], c.resolver,
+                     {"who": ("r", k), "fut": a[1], "tok": value(("r", k), a[2] if len(a) > 2 else None)})
+                for k, a in enumerate(res)]
+
+    def mk_attach():
+        out = []
+        for p, pr in enumerate(procs):
+            t_att = hook_cfg(pr[2])[2]
+            if t_att is not None:
+                out.append(c.mk(("ha", p), t_att, c.hooker, {"p": p}))
+        return out
 
     if order == "P":
         evs = mk_starts() + mk_res()
     else:
         evs = mk_res()
         evs = evs + mk_starts()
+    evs = evs + mk_attach()
     sim.schedule(evs)
     if watchdog:
         _watchdog(True)
@@ -384,6 +452,8 @@ class Ref:
         self.base = [RFut() for _ in range(NF)]
         self.prebuilt = {}
         self.ps = {}
+        self.hooks = {}  # p -> hook names currently registered on the starting event
+        self.finished = set()
 
     # -- queue: (time, creation index)
     def push(self, t, item):
@@ -506,7 +576,7 @@ class Ref:
                 S.append([st[1], 0, pth])
                 continue
             if k == "resolve":
-                tok = ("p", p, pth)
+                tok = norm(value(("p", p, pth), st[2] if len(st) > 2 else None))
                 self.log.append(("resolve", ("p", p), st[1], self.now, tok))
                 self.resolve_base(st[1], tok)
                 S[-1][1] += 1
@@ -515,33 +585,39 @@ class Ref:
 
     def finish(self, p):
         now = self.now
-        (_st, _style, hooks, _steps, ret) = self.prog[0][p]
+        (_st, _style, _hooks, _steps, ret) = self.prog[0][p]
         self.log.append(("finish", p, now))
+        self.finished.add(p)
         if ret == "one":
             self.mk(("ret", p, 0), now, ("sink", ("ret", p, 0)))
         elif ret == "two":
             self.mk(("ret", p, 0), now, ("sink", ("ret", p, 0)))
             self.mk(("ret", p, 1), now + 1, ("sink", ("ret", p, 1)))
-        if hooks != "none":
-            self.log.append(("hook", p, "count", now, now))
-            self.log.append(("hook", p, "event", now, now))
-            self.mk(("hk", p), now, ("sink", ("hk", p)))
+        for name in self.hooks[p]:  # every hook attached before the finish, once, at the finishing instant
+            self.log.append(("hook", p, name, now, now))
+            if name == "event":
+                self.mk(("hk", p), now, ("sink", ("hk", p)))
 
     def run(self):
         procs, res, pre, order, _mode = self.prog
         for p, pr in enumerate(procs):
             self.prebuild(p, pr[3], ())
-        for f in pre:
-            self.log.append(("resolve", "pre", f, -1, ("pre", f)))
-            self.resolve_base(f, ("pre", f))
+        for fe in pre:
+            f, code = fe if isinstance(fe, tuple) else (fe, None)
+            tok = norm(value(("pre", f), code))
+            self.log.append(("resolve", "pre", f, -1, tok))
+            self.resolve_base(f, tok)
+        for p, pr in enumerate(procs):
+            self.hooks[p] = list(hook_cfg(pr[2])[0])
 
         def starts():
             for p, pr in enumerate(procs):
                 self.push(pr[0], ("start", p))
 
         def ress():
-            for k, (t, f) in enumerate(res):
-                self.mk(("ra", k), t, ("res", ("ra", k), ("r", k), f, ("r", k)))
+            for k, a in enumerate(res):
+                tok = norm(value(("r", k), a[2] if len(a) > 2 else None))
+                self.mk(("ra", k), a[0], ("res", ("ra", k), ("r", k), a[1], tok))
 
         if order == "P":
             starts()
@@ -549,6 +625,10 @@ class Ref:
         else:
             ress()
             starts()
+        for p, pr in enumerate(procs):
+            t_att = hook_cfg(pr[2])[2]
+            if t_att is not None:
+                self.mk(("ha", p), t_att, ("attach", ("ha", p), p))
         while self.q:
             t, _seq, item = heapq.heappop(self.q)
             self.now = t
@@ -565,6 +645,13 @@ class Ref:
                 self.advance(p)
             elif kind == "sink":
                 self.log.append(("deliver", item[1], t))
+            elif kind == "attach":
+                _, eid, p = item
+                self.log.append(("deliver", eid, t))
+                for name in hook_cfg(procs[p][2])[1]:
+                    self.log.append(("attach", p, name, t))
+                    if p not in self.finished:
+                        self.hooks[p].append(name)
             elif kind == "res":
                 _, eid, who, f, tok = item
                 self.log.append(("deliver", eid, t))
@@ -734,7 +821,9 @@ def trace_oracle(prog, log):
         if eid[0] == "ret":
             return "ProcessContinuation", "return-events", procs[eid[1]][4]
         if eid[0] == "hk":
-            return "Event", "hook-event", procs[eid[1]][2]
+            return "Event", "hook-event", hook_cfg(procs[eid[1]][2])[4]
+        if eid[0] == "ha":
+            return "Simulation", "pre-run-event", "hook-attacher"
         return "Simulation", "pre-run-event", "resolver"
 
     for eid, t in created.items():
@@ -756,13 +845,29 @@ def trace_oracle(prog, log):
     for tick, e in enumerate(log):
         if e[0] == "hook":
             hk[(e[1], e[2])].append((tick, e[3], e[4]))
+    att = {}
+    for tick, e in enumerate(log):
+        if e[0] == "attach":
+            att[(e[1], e[2])] = tick
+    started = {}
+    for tick, e in enumerate(log):
+        if e[0] == "start":
+            started[e[1]] = tick
     for p, pr in enumerate(procs):
-        if pr[2] == "none":
+        pre_names, late_names, _t, _how, label = hook_cfg(pr[2])
+        if not pre_names and not late_names:
             continue
         parked = "parks" if any(s[0] == "await" for s in flat_steps(pr[3])) else (
             "delays" if flat_yields(pr[3]) else "immediate")
-        shape = f"{pr[2]}/{pr[1]}/{parked}"
-        for name in ("count", "event"):
+        for name in pre_names + late_names:
+            if name in pre_names:
+                atick, when = -1, ""
+            else:
+                atick = att.get((p, name))
+                if atick is None:
+                    continue  # the attaching event itself never ran (reported above as an undelivered event)
+                when = "/attached-in-flight" if p in started and started[p] < atick else "/attached-before-start"
+            shape = f"{label}/{pr[1]}/{parked}{when}"
             calls = hk.get((p, name), [])
             if p not in fin:
                 if calls:
@@ -771,9 +876,12 @@ def trace_oracle(prog, log):
                         f"never finished")
                 continue
             ftick, ft = fin[p]
+            if atick > ftick:
+                continue  # attached after the process had finished: the statement is silent
             if len(calls) != 1:
                 add(f"Event/hook-count/{shape}",
-                    f"completion hook '{name}' of process {p} ran {len(calls)} times (process finished at {ft}ns)")
+                    f"completion hook '{name}' of process {p} ({'given before scheduling' if atick < 0 else 'attached to the starting event while the process was suspended'}) "
+                    f"ran {len(calls)} times (process finished at {ft}ns)")
                 continue
             tick, now, targ = calls[0]
             if tick < ftick:
@@ -810,15 +918,23 @@ def nontrivial(log):
     resolved at the very instant of the yield, or (b) resolved an already-resolved future, or (c) yielded a
     non-zero delay that truncates to 0 ns, or (d) had a same-instant tie at a resume: between a process's
     yield and its resume another agent (another process, the resolver, a sink delivery) acted at the
-    instant of the resume."""
+    instant of the resume, or (e) attached a completion hook while the process was in flight, or
+    (f) resolved a future with a falsy non-None value."""
     seen = set()
     bt = {}
     acts = []  # (tick, time, agent)
     ytick = {}
+    inflight = set()
     for tick, e in enumerate(log):
         k = e[0]
+        if k == "attach" and e[1] in inflight:
+            return True
+        if k == "finish":
+            inflight.discard(e[1])
+        if k == "start":
+            inflight.add(e[1])
         if k == "resolve":
-            if e[2] in seen:
+            if e[2] in seen or e[4] in (0, "<False>", "", ()):
                 return True
             seen.add(e[2])
             bt[e[2]] = e[3]
@@ -968,7 +1084,7 @@ def _family(name, tier):
             maxlen, maxres = (2, 2) if q else (3, 2)
         else:  # await-big
             d_a, d_b = D1, DBIG
-            times = (1, 10 ** 15 - 1, 10 ** 15, 10 ** 15 + 1, 10 ** 15 + 2)
+            times = (1, 10 ** 15 - 1, 10 ** 15, 10 ** 15 + 1) + (() if q else (10 ** 15 + 2,))
             maxlen, maxres = (2, 2) if q else (3, 2)
         leaf = [("delay", d_a), ("delay", d_b), ("await", F0, "late"), ("await", F1, "late"),
                 ("resolve", 0), ("resolve", 1), ("delayw", d_a, ("res", 0, 0)), ("delayw", d_b, ("res", 1, 1))]
@@ -1063,10 +1179,55 @@ def _family(name, tier):
                       "start_ns": [[0], [0, 1]], "resolver_actions<=": 1,
                       "note": "thorough adds second-process scripts of exactly 3 steps over the 9-letter core "
                               "alphabet (start 0 only)"}
+    if name == "hooks-late":
+        # completion hooks attached to the starting event by another entity while the process is suspended
+        # (on a delay / on a future), with and without other hooks present at start
+        alpha = [("delay", D0), ("delay", D1), ("delay", DHALF), ("await", F0, "late"),
+                 ("await", ("any", F0, F1), "late"), ("delayw", D0, "one"), ("sub", (("await", F0, "late"),)),
+                 ("resolve", 0)]
+        scripts = list(seqs(alpha, 2 if q else 3))
+        cfgs = [(kind, t, how) for kind in ("late", "mixed") for t in (0, 1) for how in ("add", "append")]
+        A = [((0, "entity", cfg, steps, "one"),) for cfg in cfgs for steps in scripts]
+        A += [((0, "once", cfg, steps, "none"),) for cfg in (("late", 0, "add"), ("mixed", 1, "append"))
+              for steps in scripts]
+        if not q:
+            A += [((0, "entity", (kind, 2, "add"), steps, "two"),) for kind in ("late", "mixed") for steps in scripts]
+        B = [(rs, (), "P", "auto") for rs in res_schedules((0, 1, 2), (0, 1), 2)]
+        B += [(rs, (), "R", "auto") for rs in res_schedules((0, 1, 2), (0, 1), 1)]
+        B += [(rs, (), "P", m) for rs in ((), ((1, 0),)) for m in ("end", "ctl")]
+        return A, B, {"processes": 1, "steps<=": 2 if q else 3, "alphabet": len(alpha),
+                      "hook configs": ["late|mixed x attach t in {0,1}ns x add_completion_hook|on_complete.append",
+                                       "styles entity, once"],
+                      "resolver_times_ns": [0, 1, 2], "resolver_actions<=": 2}
+
+    if name == "falsy-values":
+        # futures resolved with falsy values (0, False, '', [], None) for direct awaits, yield from, and as
+        # elements of any_of / all_of results
+        codes = ("z", "F", "s", "l", "N", None)
+        alpha = [("await", F0, "late"), ("await", F1, "late"), ("await", ("any", F0, F1), "late"),
+                 ("await", ("all", F0, F1), "late"), ("sub", (("await", F0, "late"),)), ("delay", D1),
+                 ("resolve", 0, "z"), ("resolve", 1, "l")]
+        if not q:
+            alpha += [("await", ("all", ("any", F0, F1), F2), "pre"), ("resolve", 2, "F")]
+        A = [((0, "entity", "ctor", steps, "none"),) for steps in seqs(alpha, 2 if q else 3, 1)]
+        B = []
+        for rs in res_schedules((0, 1), (0, 1), 2):
+            for vals in itertools.product(codes, repeat=len(rs)):
+                B.append((tuple((t, f, c) if c else (t, f) for (t, f), c in zip(rs, vals)), (), "P", "auto"))
+        for rs in res_schedules((0, 1), (0, 1), 1):
+            for vals in itertools.product(codes, repeat=len(rs)):
+                acts = tuple((t, f, c) if c else (t, f) for (t, f), c in zip(rs, vals))
+                B.append((acts, (), "R", "end"))
+                B.append((acts, ((0, "z"),), "P", "auto"))
+                B.append((acts, ((1, "N"), (0, "l")), "P", "auto"))
+        return A, B, {"processes": 1, "steps<=": 2 if q else 3, "alphabet": len(alpha),
+                      "resolve_values": ["0", "False", "''", "[]", "None", "unique token"],
+                      "resolver_times_ns": [0, 1], "resolver_actions<=": 2}
     raise KeyError(name)
 
 
-FAMILIES = ["delays", "await", "await-half", "await-big", "combinators", "combinators-seq", "two-procs"]
+FAMILIES = ["delays", "await", "await-half", "await-big", "combinators", "combinators-seq", "two-procs",
+            "hooks-late", "falsy-values"]
 
 
 def _work(job):
@@ -1153,13 +1314,16 @@ def run_family(run, name, tier, seed):
 def main(tier, seed, only=None):
     run = Run(PID, tier, seed, "model_checking",
               rule=("every program = (1-2 process scripts over {delay, delay+side effects, await future/any_of/all_of, "
-                    "yield from, resolve, return} x start style x hooks) x (resolver schedule x pre-resolved futures x "
+                    "yield from, resolve, return} x start style x hooks (given at construction / added before scheduling / "
+                    "attached by another entity while the process is suspended) x resolve values (unique tokens, "
+                    "0, False, '', [], None)) x (resolver schedule x pre-resolved futures x "
                     "creation order of pre-run events x loop mode) is executed on the real Simulation and on a "
                     "reference interpreter; distinct = distinct program; non-trivial = the run awaited a future with "
                     "an input already resolved at the yield or resolved at the instant of the yield, resolved a "
                     "future twice, yielded a non-zero delay truncating to 0 ns, or had a same-instant tie at a resume "
                     "(another process, the resolver or a sink delivery acted at the resume instant between the "
-                    "yield and the resume); states = distinct observation logs"),
+                    "yield and the resume), attached a completion hook while the process was in flight, or resolved "
+                    "a future with a falsy non-None value; states = distinct observation logs"),
               assumptions=["harness generators observe resume instants/values via Entity.now and the value of the "
                            "yield expression (public contract)",
                            "same-instant order of resolve calls is taken as observed (C01 owns event ordering)",
